@@ -40,6 +40,12 @@ type verdict struct {
 	val   model.Val
 	why   string // must-reject reason (statement clause) or note for denoting inputs
 	restr bool   // value violates a range/length/pattern/fraction-digits restriction only
+	// tol: the TypedValue kind is not the one gNMI prescribes for the type, but the number fits
+	// (int_val for an unsigned leaf - ygot's documented TolerateJSONInconsistencies - and the mirror
+	// case uint_val for a signed leaf). Inside a union such a member does not hide a later member the
+	// TypedValue is at home in: alts lists the other acceptable stored values.
+	tol  bool
+	alts []model.Val
 }
 
 func denotes(v model.Val, why string) verdict { return verdict{k: vDenotes, val: v, why: why} }
@@ -281,29 +287,44 @@ func denoteJSON(lt *model.LType, raw interface{}) verdict {
 // unionVerdict: RFC 7950 9.12, the first member (schema order) that accepts the input gives the value;
 // the input must be rejected when every member must reject it.
 func unionVerdict(lt *model.LType, f func(*model.LType) verdict) verdict {
-	all := true
-	firstWhy := ""
+	generic := func(w string) bool { return w == "JSON value of the wrong kind" || w == "wrong TypedValue kind" }
+	sawOpen := false
+	why := ""
+	var tol []verdict
 	for _, m := range lt.Members {
 		v := f(m)
 		switch v.k {
-		case vDenotes:
-			return v
-		case vAbsent:
+		case vDenotes, vAbsent:
+			if v.tol {
+				tol = append(tol, v)
+				continue
+			}
+			if sawOpen {
+				return verdict{k: vOpen, why: "an earlier union member leaves it open"}
+			}
+			for _, t := range tol {
+				v.alts = append(v.alts, t.val)
+			}
 			return v
 		case vOpen:
-			all = false
+			sawOpen = true
 		case vMustReject:
-			if firstWhy == "" || v.why != "JSON value of the wrong kind" && v.why != "wrong TypedValue kind" {
-				if firstWhy == "" || firstWhy == "JSON value of the wrong kind" || firstWhy == "wrong TypedValue kind" {
-					firstWhy = v.why
-				}
+			if why == "" || (generic(why) && !generic(v.why)) {
+				why = v.why
 			}
 		}
 	}
-	if all {
-		return mustReject(firstWhy)
+	if sawOpen {
+		return verdict{k: vOpen, why: "some union member leaves it open"}
 	}
-	return verdict{k: vOpen, why: "some union member leaves it open"}
+	if len(tol) > 0 {
+		v := tol[0]
+		for _, t := range tol[1:] {
+			v.alts = append(v.alts, t.val)
+		}
+		return v
+	}
+	return mustReject(why)
 }
 
 // ---- TypedValue -------------------------------------------------------------------------------------
@@ -361,7 +382,9 @@ func denoteTV(lt *model.LType, tv *gpb.TypedValue) verdict {
 		case k.Signed():
 			return intVerdict(lt, k, big.NewInt(x.IntVal), "int_val")
 		case k.Unsigned():
-			return intVerdict(lt, k, big.NewInt(x.IntVal), "int_val for unsigned leaf (tolerated)")
+			v := intVerdict(lt, k, big.NewInt(x.IntVal), "int_val for unsigned leaf (tolerated)")
+			v.tol = true
+			return v
 		}
 	case *gpb.TypedValue_UintVal:
 		switch {
@@ -370,6 +393,7 @@ func denoteTV(lt *model.LType, tv *gpb.TypedValue) verdict {
 		case k.Signed():
 			// not a documented tolerance: no verdict on acceptance, but an out-of-range number stays one
 			v := intVerdict(lt, k, new(big.Int).SetUint64(x.UintVal), "uint_val for signed leaf (open)")
+			v.tol = true
 			return v
 		}
 	case *gpb.TypedValue_DoubleVal:
